@@ -46,6 +46,18 @@ def cycle(s, rng, i):
     s.chmod(U, True)
     s.tick(1)
     s.timeout()
+    # a deleted source whose (already existing, empty) store directory cannot be removed: the clean-up after the
+    # abandoned copy fails with EACCES, which is nobody's business - and must not cost anything either
+    E = WATCH + "/inc/e.txt"
+    SE = R + "/k/store/inc/e.txt"
+    s.put(E, "e%d" % i)
+    s.write(3, E)
+    s.rm(E)
+    s.mkdirp(SE)
+    s.add("chmodx %s 555" % wc.hexs(R + "/k/store/inc"))
+    s.timeout()
+    s.add("chmodx %s 755" % wc.hexs(R + "/k/store/inc"))
+    s.add("rmdir %s" % wc.hexs(SE))
     # a restart with an entry still pending: the queue is loaded from a non-empty directory
     s.put(B, "pending%d" % i)
     s.write(3, B)
@@ -116,7 +128,7 @@ def main(rep):
     rep.cov["input_distribution"] = {"histories": total - 3, "soak_runs": 3}
     rep.cov["rule"] = ("random mixed histories with the number of descriptors opened by klunok and not closed (wrapped open/close) checked after every operation: "
                        "2 with a handler loaded, 0 after release; soak: one round of a mixed history (editor exec with ELF interpreter, four damaged editor-named ELF images, plain files, sources replaced by a directory / made unreadable, a history path, "
-                       "a project file, a collision, a deleted source, three passes) repeated 1, 10 and 100 times must end with identical counts of live heap "
+                       "a project file, a collision, a deleted source, a deleted source whose clean-up fails with EACCES, four passes) repeated 1, 10 and 100 times must end with identical counts of live heap "
                        "blocks (wrapped malloc/calloc/realloc/strdup/free) and descriptors, before and after releasing the handler")
     rep.cov["samples"] = [soak_script(1, rep.seed).split("\n")[-25:]]
     vlib.conclude_proofs(rep, found)
